@@ -27,6 +27,29 @@ class HDict(dict):
         return dict.__delitem__(self, k)
 
 
+class WatchDict(dict):
+    """A manager table whose reads report to `hook(name)` first (rooms,
+    pending_disconnect): is_connected() makes two accesses, and a thread can
+    be pre-empted between them."""
+
+    def __init__(self, name, hook, data):
+        super().__init__(data)
+        self._name = name
+        self._hook = hook
+
+    def __contains__(self, k):
+        self._hook(self._name)
+        return dict.__contains__(self, k)
+
+    def __getitem__(self, k):
+        self._hook(self._name)
+        return dict.__getitem__(self, k)
+
+    def get(self, k, d=None):
+        self._hook(self._name)
+        return dict.get(self, k, d)
+
+
 class _Tap(logging.Handler):
     def __init__(self):
         super().__init__(level=logging.ERROR)
@@ -132,8 +155,31 @@ class ThreadsAdapter:
             if 'snap' in loc and a[1] in loc['snap']:
                 loc['todo'] = loc['snap'][loc['snap'].index(a[1]) + 1:]
 
-        wrap(m, 'can_disconnect', 'm.can_disconnect', sid_ns)
-        wrap(m, 'is_connected', 'm.is_connected', sid_ns)
+        # inside is_connected: the first access to a second table is a
+        # pre-emption point of its own
+        isc = threading.local()
+
+        def table_read(name):
+            c = getattr(isc, 'st', None)
+            if c is None or sched.me() is None:
+                return
+            if c['first'] is None:
+                c['first'] = name
+            elif name != c['first'] and not c['yielded']:
+                c['yielded'] = True
+                sched.yield_point('isc.member')
+
+        def isc_call(loc, a, k):
+            sid_ns(loc, a, k)
+            isc.st = {'first': None, 'yielded': False}
+
+        def isc_ret(loc, r):
+            isc.st = None
+        m.rooms = WatchDict('rooms', table_read, m.rooms)
+        m.pending_disconnect = WatchDict('pending', table_read,
+                                         m.pending_disconnect)
+        wrap(m, 'can_disconnect', 'm.can_disconnect', isc_call, isc_ret)
+        wrap(m, 'is_connected', 'm.is_connected', isc_call, isc_ret)
         def pre_call(loc, a, k):
             sid_ns(loc, a, k)
             loc['dest'] = False
@@ -246,7 +292,7 @@ def _cb_count(m, sid):
     return n
 
 
-ALL_LABELS = ['start', 'm.can_disconnect', 'm.is_connected',
+ALL_LABELS = ['start', 'm.can_disconnect', 'm.is_connected', 'isc.member',
               'm.pre_disconnect', 'eio.send', 'handler', 'm.disconnect',
               'm.get_namespaces', 'm.sid_from_eio_sid', 'environ.has',
               'environ.del']
